@@ -22,6 +22,8 @@ func main() {
 		cmdCheck(os.Args[2:])
 	case "tables":
 		cmdTables(os.Args[2:])
+	case "unwind":
+		cmdUnwind(os.Args[2:])
 	default:
 		fmt.Fprintln(os.Stderr, "unknown command", os.Args[1])
 		os.Exit(2)
@@ -118,4 +120,52 @@ func cmdTables(args []string) {
 	if bad > 0 {
 		os.Exit(1)
 	}
+}
+
+var unwinders = map[string]func(c *checkCtx, tier string) []oblRes{
+	"ean": unwindEAN,
+}
+
+func cmdUnwind(args []string) {
+	fs := flag.NewFlagSet("unwind", flag.ExitOnError)
+	repo := fs.String("repo", "/repo", "repository")
+	tier := fs.String("tier", "quick", "tier")
+	fs.Parse(args)
+	p, err := exec.Load(*repo)
+	if err != nil {
+		fmt.Fprintln(os.Stderr, "load:", err)
+		os.Exit(2)
+	}
+	if err := p.RunInit(); err != nil {
+		fmt.Fprintln(os.Stderr, err)
+		os.Exit(2)
+	}
+	c := &checkCtx{P: p, Repo: *repo, Tier: *tier, cfg: &exec.SolverCfg{Timeout: 10 * time.Second, Workers: 12}}
+	bad := 0
+	for _, n := range fs.Args() {
+		t0 := time.Now()
+		rs := unwinders[n](c, *tier)
+		np := 0
+		for _, r := range rs {
+			if r.Proved {
+				np++
+			} else {
+				bad++
+				fmt.Printf("   NOT PROVED %s %s\n", r.Name, firstLine(r.Output))
+			}
+		}
+		fmt.Printf("%s: %d obligations, %d proved (%.1fs)\n", n, len(rs), np, time.Since(t0).Seconds())
+	}
+	if bad > 0 {
+		os.Exit(1)
+	}
+}
+
+func firstLine(s string) string {
+	for i := 0; i < len(s); i++ {
+		if s[i] == '\n' {
+			return s[:i]
+		}
+	}
+	return s
 }
